@@ -219,6 +219,7 @@ impl C17 {
         };
         cfg.clock_advance_pm = *rng.pick(&[0u16, 0, 20, 100]);
         cfg.budget = 20_000;
+        cfg.workers = *rng.pick(&[None, None, Some(1usize), Some(2)]);
         let via_entry = rng.below(5) == 0;
         Case { class, jobs, steps, front_end, nounset, via_entry, cfg }
     }
@@ -246,9 +247,10 @@ pub fn judge(case: &Case) -> Verdict {
     let any_task_error = case.jobs.iter().any(|j| j.fail == Fail::Nounset);
 
     match &r.abort {
-        Some(Abort::Deadlock { detail, main_done, .. }) => {
+        Some(Abort::Deadlock { detail, main_done, worker_starved, .. }) => {
             if !*main_done {
-                v.violation = Some(viol("C17/deadlock", format!("{detail} script={script:?}"), None));
+                let class = if *worker_starved { "C17/deadlock/worker-starvation" } else { "C17/deadlock" };
+                v.violation = Some(viol(class, format!("workers={:?} {detail} script={script:?}", case.cfg.workers), None));
                 return v;
             }
             v.notes.push("orphan tasks blocked after the shell finished".into());
@@ -465,6 +467,11 @@ impl Check for C17 {
         if c.cfg.clock_advance_pm != 0 {
             let mut d = c.clone();
             d.cfg.clock_advance_pm = 0;
+            out.push(d);
+        }
+        if c.cfg.workers.is_some() {
+            let mut d = c.clone();
+            d.cfg.workers = None;
             out.push(d);
         }
         if c.front_end != FrontEnd::DashC {
